@@ -14,7 +14,7 @@ from fam_gen import GenFamily
 from fam_sub import SubFamily
 from fam_retention import RetentionFamily
 from fam_restart import RestartFamily
-from fam_load import LoadFamily
+from fam_load import LoadFamily, RestoreBatchFamily
 
 FLOW = FlowFamily()
 ACTIONS = ActionsFamily()
@@ -32,6 +32,7 @@ SUB = SubFamily()
 RETENTION = RetentionFamily()
 RESTART = RestartFamily()
 LOAD = LoadFamily()
+RESTOREBATCH = RestoreBatchFamily()
 
 QUIESCENT = ['cur-fifo', 'cur-chaos', 'cur-chaos-lifo', 'mt2-chaos', 'mt4-chaos', 'mt8']
 ALLSCHED = QUIESCENT + ['cur-inline', 'mt2-inline']
@@ -49,6 +50,7 @@ PROPS = {
             part('load', LOAD, 260, 5000, judge=True, props=['C13'], chunk=12, ns=[2, 4, 8]),
             part('big', LOAD, 16, 600, judge=True, props=['C13'], chunk=2, ns=[16, 32, 64], kind='static'),
             part('storm', LOAD, 500, 8000, judge=True, props=['C13'], chunk=25, ns=[2, 3], storm=1.0, caps=[1024]),
+            part('restore', RESTOREBATCH, 150, 3000, judge=True, props=['C13'], chunk=15),
             part('churn', LOAD, 150, 3000, judge=True, props=['C13'], chunk=10, ns=[8, 16], churn=1.0, storm=0.0, caps=[1024, 1024, 4]),
         ],
     },
